@@ -4,12 +4,14 @@
 package verify
 
 //@ func CheckCertificate
+//@   sweep[C07]
 //@   ensures[C01] err == nil ==> result != nil && certDer(result) == val(certder) && chainsTo(val(certder), rootsOfTrust, now)
 //@   ensures[C01] err == nil ==> len(certder) != 0 && rootsOfTrust != nil
 //@   ensures[C01] err != nil ==> result == nil
 //@   assigns[C09] nothing
 
 //@ func EndorsementProto
+//@   sweep[C07]
 //@   modifies pbsrc, pbok
 //@   requires endorsement != nil && opts != nil
 //@   ensures[C01] err == nil ==> authentic(old(val(endorsement.SerializedUefiGolden)), old(val(endorsement.Signature)), old(opts.RootsOfTrust), old(opts.Now))
@@ -18,6 +20,7 @@ package verify
 //@   assigns[C09] nothing
 
 //@ func Endorsement
+//@   sweep[C07]
 //@   modifies pbsrc, pbok
 //@   requires opts != nil
 //@   ensures[C01] err == nil ==> authenticSer(old(val(serializedEndorsement)), old(opts.RootsOfTrust), old(opts.Now))
